@@ -7,6 +7,7 @@ for id in "$@"; do
   elif [ "$ROUND" = 3 ]; then wt=/tmp/seed/R3$id; spec="A=E B=F"; names="E F";
   elif [ "$ROUND" = 4 ]; then wt=/tmp/seed/R4$id; spec="A=G B=H"; names="G H";
   elif [ "$ROUND" = 5 ]; then wt=/tmp/seed/R5$id; spec="A=I B=J"; names="I J";
+  elif [ "$ROUND" = 6 ]; then wt=/tmp/seed/R6$id; spec="A=K B=L"; names="K L";
   else wt=/tmp/seed/$id; spec="A B"; names="A B"; fi
   python3 /verif/scripts/seed_intake.py $wt $id $spec 2>&1 | tail -2 | cut -c1-330
   for L in $names; do
